@@ -393,7 +393,7 @@ def run(rep, tier):
         # "never panic because of how an image is split into bands ... pools with more threads
         # than rows": no band is empty (the cropped wrappers unwrap a constructor that rejects
         # an empty band)
-        rep.call(c14.sizes, rep, prog, "C08.band-sizes")
+        rep.call(c14.sizes, rep, prog, "C08.band-sizes", siblings=True)
         n = rep.call(c03.arith, rep, prog, "C08.arith", only=lambda f: f.file == "src/threading.rs") or 0
         rep.floor("C08.arith", "arithmetic asserts in threading.rs", n, 8)
         rep.call(index_rules.unwraps, rep, prog, "C08.unwrap", only=lambda f: f.file == "src/threading.rs", floor=6)
